@@ -22,7 +22,10 @@ Leg T  seeded random histories (forks up to 3 blocks deep, blocks that confirm a
        (1.9 MB transactions, v1 and v2) against a small pool: a REJECTED set whose valid prefix weighs
        as much as the pool may hold must leave no weight behind (nothing is evicted), an ACCEPTED set
        just below the limit evicts nothing, only pooled transactions reaching the limit permit
-       evictions -- the spec recomputes `Full` from the pooled transactions' real weights; thorough
+       evictions -- the spec recomputes `Full` from the pooled transactions' real weights; directed
+       interplay histories (v2 storage-proof resolutions pooled across unrelated blocks, a reorg and
+       stale bases; children mixing confirmed and ephemeral inputs under partial confirmation; v1
+       submissions evicting v2 transactions between two V2TransactionSet calls); thorough
        also: histories that fill the pool to its 20 M weight limit with 1 MB transactions."""
 import os, json, random, time
 import vlib
@@ -51,7 +54,7 @@ def run(tier):
         "r": lambda: P.leg_r(wd, binary, PROP, "Pool_pool_edges.cfg", scens, "pool", rng, verdict, devs, accept=acc,
                              max_paths=(320 if q else None), max_len=40),
         "t": lambda: P.leg_t(wd, binary, PROP, "c05", verdict, devs, histories=(80 if q else 900), steps=(45 if q else 70), accept=acc,
-                             extra_env=({"VERIF_HEAVY": 4} if q else {"VERIF_FAT": 4, "VERIF_HEAVY": 16}), timeout=3000),
+                             extra_env=({"VERIF_HEAVY": 4, "VERIF_SCRIPTED": 6} if q else {"VERIF_FAT": 4, "VERIF_HEAVY": 16, "VERIF_SCRIPTED": 36}), timeout=3000),
     })
     ms, rr, tt = [res["m1"], res["m2"]], [res["r"]], res["t"]
     probes = {"DevEphDrop breaks RetentionStrict": res["p"]}
